@@ -22,6 +22,36 @@ HISTORY = {
     "C17-1": "caught by the tie only at first: exact predicate oracle added",
     "C18-2": "missed at first (chains only produce small delta): direct ESH calls over delta up to 400 compared with the closed form",
     "C19-2": "missed at first (every run used a fresh store): second run into the same store added",
+    "C04-1": "caught only statistically at first (acceptance far from target): direct audit of the real normal fill added to C04",
+    "C04-2": "C04 itself stays silent (its claim is partial / statistical); caught by C02 - by the tie at first, then by the added kinetic-energy oracle",
+    "C04-3": "C04 itself stays silent (partial claim); caught by C02 (forward/backward oracle)",
+    "C04-4": "C04 itself stays silent (partial claim); caught by C02 (reference-energy oracle) and by the C01 tie",
+    "C01-3": "same idea as C01-1 (second agent): caught by the tie",
+    "C03-3": "same idea as C03-1 (second agent): caught as built after round 1",
+    "C03-4": "same idea as C03-2 (second agent): caught as built after round 1",
+    "C05-4": "same idea as C05-1 (second agent): caught as built",
+    "C06-3": "same trigger as C06-1; missed in its first run (no random case combined jitter None with an empty final window): fixed corpus added",
+    "C13-3": "missed at first (no fault ever arrived after abort() had begun): slow chains failing during the draw in which abort() is called",
+    "C13-4": "same idea as C13-2 (second agent): caught as built after round 1",
+    "C02-3": "same idea as C02-2 (second agent): caught as built after round 1",
+    "C02-4": "missed at first (the orbit harness never changed the transformation): transformation replaced between draws + reference-energy oracle",
+    "C07-3": "same idea as C07-2 (second agent): caught as built",
+    "C07-4": "missed at first (C07 had no closed loop): acceptance statistics of real chains with first-step divergences audited",
+    "C08-3": "caught by the bit-exact kernel tie",
+    "C08-4": "missed at first (targets sat near the origin and the tolerance on the squared whitening distance was too wide): far-mean targets, tolerance 1e-21",
+    "C09-3": "missed at first (only the window COUNTS were tied): content tie for the diagonal adaptation built (bit-exact estimate over the model's foreground window)",
+    "C10-4": "missed at first (only parallel-vs-sequential comparison, Model::math ignored its stream): every chain compared with the chain run alone, randomised math()",
+    "C11-3": "same idea as C11-1 (second agent): caught as built after round 1",
+    "C12-3": "same idea as C12-1 (second agent): caught as built",
+    "C14-3": "same idea as C14-1 (second agent): caught as built",
+    "C14-4": "same idea as C15-1 (second agent): caught as built",
+    "C15-4": "same idea as C15-1 (second agent): caught as built",
+    "C16-4": "same idea as C16-1 (second agent): caught as built",
+    "C17-4": "same slip as C17-2 in the other kernel: caught as built",
+    "C18-3": "same idea as C18-1 (second agent): caught as built",
+    "C18-4": "missed at first (momentum refresh after a divergence was not checked): momentum logged before/after every draw, first-step divergences generated",
+    "C19-3": "same idea as C19-1 (second agent): caught as built",
+    "C19-4": "same idea as C19-2 (second agent): caught as built after round 1",
 }
 
 
